@@ -1,5 +1,5 @@
 #!/bin/bash
-# tools/seeded_eval.sh [seeded-id...]
+# tools/seeded_eval.sh [seeded-id...]      (EVAL_PROP=Cyy: run another property's check against the change)
 # The recorded evaluation of my checks against the stored breaking changes, done the way the brief prescribes:
 #   git -C /repo apply seeded/<id>/patch.diff ; ./check <property> quick ; git -C /repo checkout -- .
 # The evidence file of the property is saved before and restored afterwards (evidence must describe the unchanged tree).
@@ -8,7 +8,7 @@ HERE="$(cd "$(dirname "$0")/.." && pwd)"; cd "$HERE"
 ids=("$@"); [ ${#ids[@]} -eq 0 ] && ids=($(ls seeded))
 if [ -n "$(git -C /repo status --short)" ]; then echo "/repo is not clean"; exit 3; fi
 for sid in "${ids[@]}"; do
-  prop=${sid%%-*}
+  prop=${EVAL_PROP:-${sid%%-*}}
   cp evidence/$prop.json /tmp/.seeded_eval_ev.$$ 2>/dev/null
   git -C /repo apply "$HERE/seeded/$sid/patch.diff" || { echo "$sid: patch does not apply"; continue; }
   VERIF_TIMEOUT=${VERIF_TIMEOUT:-400} ./check $prop quick > /tmp/.seeded_eval_out.$$ 2>&1; rc=$?
